@@ -26,6 +26,8 @@ func init() {
 			ruleRawCopy(c, r, "")
 			ruleEncAvail(c, r, "")
 			ruleWriter2Split(c, r, "")
+			ruleDefaultChunkType(c, r, t, "")
+			ruleReopenState(c, r, "")
 			ruleFlushFailStop(c, r, "")
 			ruleLoopAdvanceExact(c, r, "")
 			ruleMatcherGuard(c, r, "", false)
